@@ -40,6 +40,10 @@ pub struct Profile {
     /// allow instrumentation strictly inside a construct that is (or later gets) replaced through
     /// block-alternate: it must disappear with the construct
     pub region_interior: bool,
+    /// also place ONE block-entry / block-exit / semantic-after probe on the opener (or `else`) of a
+    /// construct that carries a non-empty block-alternate: whether it survives is not stated, but it
+    /// must not surface anywhere except next to the replacement (oracle: `replaced_opener_probe`)
+    pub opener_special: bool,
     /// also request after-code / replacements on a function's final `end` (where only before-code is emitted)
     pub final_end_after: bool,
     /// also generate `clear_instr_at` calls that take earlier injections back
@@ -80,6 +84,7 @@ impl Profile {
             dangling: false,
             misapplied: false,
             region_interior: false,
+            opener_special: false,
             final_end_after: false,
             clears: false,
             add_mem_anyway: false,
@@ -1678,7 +1683,17 @@ impl OpGen<'_> {
                         {
                             continue;
                         }
-                    } else if regions.iter().any(|(x, y)| (i >= *x && i <= *y + 1) && !(self.p.region_interior && i > *x && i < *y)) {
+                    } else if regions.iter().any(|(x, y)| {
+                        (i >= *x && i <= *y + 1)
+                            && !(self.p.region_interior && i > *x && i < *y)
+                            && !(self.p.opener_special
+                                && i == *x
+                                && matches!(mode, Mode::BlockEntry | Mode::BlockExit | Mode::SemanticAfter)
+                                && !instrumented.contains(&i)
+                                && (l.body[i].block_alt.as_ref().map_or(false, |b| !b.ins.is_empty())
+                                    || sites.iter().any(|s: &Site| s.instr as usize == i && s.mode == Mode::BlockAlt && !s.clear))
+                                && !sites.iter().any(|s: &Site| s.instr as usize == i && s.mode == Mode::EmptyBlockAlt))
+                    }) {
                         continue;
                     }
                     // a type-preserving replacement repeats the instruction, so an instruction
